@@ -106,6 +106,90 @@ theorem readerFunc_results (fn : Fn) (r : STy) (h : checkReaderFunc fn = some r)
     · cases h
   · cases h
 
+/-- Fold: the result has the key column and the accumulator; the key is hashable, comparable and accumulable and
+the function takes the accumulator followed by the residual columns -/
+theorem fold_result (s : STy) (fn : Fn) (r : STy) (h : checkFold s fn = some r) :
+    ∃ k rest acc, s.cols = k :: rest ∧ rest ≠ [] ∧ fn.outs = [acc] ∧ fn.ins = acc :: rest ∧
+      hasOps k = true ∧ canAccum k = true ∧ r = ⟨[k, acc], s.pfx⟩ := by
+  unfold checkFold at h
+  split at h
+  · rename_i k rest acc hc ho
+    split at h
+    · rename_i hcond
+      simp only [Bool.and_eq_true, decide_eq_true_eq, beq_iff_eq] at hcond
+      cases h
+      refine ⟨k, rest, acc, hc, ?_, ho, hcond.2, hcond.1.1.2, hcond.1.2, rfl⟩
+      intro e; rw [e] at hcond; simp at hcond
+    · cases h
+  · cases h
+
+/-- Flatmap: the function applies to the columns, its results are vectors, and the result slice has their element types
+and the argument's prefix -/
+theorem flatmap_result (s : STy) (fn : Fn) (r : STy) (h : checkFlatmap s fn = some r) :
+    canApply fn s.cols = true ∧ devectorize fn.outs = some r.cols ∧ r.pfx = s.pfx := by
+  unfold checkFlatmap at h
+  split at h
+  · rename_i hc
+    cases hd : devectorize fn.outs with
+    | none => rw [hd] at h; cases h
+    | some o => rw [hd] at h; cases h; exact ⟨hc, rfl, rfl⟩
+  · cases h
+
+/-- Reshuffle and Repartition return their argument's type; Reshuffle needs key columns with operators, Repartition a
+function `func(nshard int, cols…) int` exactly -/
+theorem reshuffle_result (s r : STy) (h : checkReshuffle s = some r) : r = s ∧ keysOk s = true := by
+  unfold checkReshuffle at h
+  split at h
+  · rename_i hk; cases h; exact ⟨rfl, hk⟩
+  · cases h
+
+theorem repartition_result (s : STy) (fn : Fn) (r : STy) (h : checkRepartition s fn = some r) :
+    r = s ∧ fn.ins = .int :: s.cols ∧ fn.outs = [.int] := by
+  unfold checkRepartition at h
+  split at h
+  · rename_i hc
+    simp only [Bool.and_eq_true, beq_iff_eq] at hc
+    cases h; exact ⟨rfl, hc.1, hc.2⟩
+  · cases h
+
+/-- WriterFunc returns its argument's type and takes `(shard int, state, err error, cols… []t)`, returning `error` -/
+theorem writerFunc_result (s : STy) (fn : Fn) (r : STy) (h : checkWriterFunc s fn = some r) :
+    r = s ∧ fn.outs = [.err] ∧ ∃ st, fn.ins = .int :: st :: .err :: s.cols.map Ty.slice := by
+  unfold checkWriterFunc at h
+  split at h
+  · rename_i st cols hins
+    split at h
+    · rename_i hc
+      simp only [Bool.and_eq_true, beq_iff_eq] at hc
+      cases h
+      exact ⟨rfl, hc.2, st, by rw [hins, hc.1]⟩
+    · cases h
+  · cases h
+
+/-- Cogroup: every input has the first input's key prefix (types with operators, at least one key column); the result
+has those key columns followed by one slice-typed column per value column of every input, in order -/
+theorem cogroup_result (ss : List STy) (r : STy) (h : checkCogroup ss = some r) :
+    ∃ s0 rest, ss = s0 :: rest ∧ 1 ≤ s0.pfx ∧ r.pfx = s0.pfx ∧
+      (∀ s ∈ ss, s.pfx = s0.pfx ∧ s.cols.take s.pfx = s0.cols.take s0.pfx ∧ 1 ≤ s.cols.length) ∧
+      (s0.cols.take s0.pfx).all hasOps = true ∧
+      r.cols = s0.cols.take s0.pfx ++ ss.flatMap (fun s => (s.cols.drop s.pfx).map Ty.slice) := by
+  unfold checkCogroup at h
+  split at h
+  · cases h
+  · rename_i s0 rest
+    simp only at h
+    split at h
+    · rename_i hc
+      simp only [Bool.and_eq_true, List.all_eq_true, decide_eq_true_eq, beq_iff_eq] at hc
+      cases h
+      refine ⟨s0, rest, rfl, hc.2, rfl, ?_, ?_, rfl⟩
+      · intro s hs
+        have := hc.1.1 s hs
+        exact ⟨this.1.2, this.2, this.1.1⟩
+      · simp only [List.all_eq_true]; exact hc.1.2
+    · cases h
+
+
 example : checkMap ⟨[.int, .impl], 1⟩ ⟨[.int, .iface], [.i64, .str], false⟩ = some ⟨[.i64, .str], 1⟩ := by decide
 example : checkCogroup [⟨[.int, .str], 1⟩, ⟨[.int, .f64, .bool], 1⟩]
     = some ⟨[.int, .slice .str, .slice .f64, .slice .bool], 1⟩ := by decide
